@@ -1,5 +1,5 @@
 SPECIFICATION GenSpec
-CONSTANTS Mts = {0, 1, 2} UserIds = {16} MaxTok = 5
+CONSTANTS Mts = {0, 1} UserIds = {16} MaxTok = 4
 CONSTANTS Paths <- Paths2 Vals <- Vals1
 CONSTRAINT Bound
 VIEW Skel
